@@ -708,6 +708,12 @@ func (la *LockAnalysis) propagate(inScope map[*ssa.Function]bool) {
 			}
 		}
 		if nIn == 0 {
+			if f.Parent() == nil && f.Object() != nil && !f.Object().Exported() {
+				// an unexported declared function without any call, go, defer, interface or
+				// function-value edge is unreachable (e.g. a helper whose calls were all
+				// inlined by the normalisation): nothing to discharge
+				continue
+			}
 			why := "it has no in-scope caller that holds it (API root or callback)"
 			report(f, r, why)
 		} else if f.Object() != nil && f.Object().Exported() && isExportedRecv(f) {
